@@ -2,8 +2,8 @@
    pinned in coq/pins/C11.txt.  All theorems hold for EVERY hash function (collisions allowed), every
    NO_INDEX_THRESHOLD and every MAX_INSERTION; the values read from the source enter only through
    C11_extracted_constants and the examples. *)
-From Coq Require Import ZArith List Arith Bool Permutation Lia.
-From SV Require Import Extracted.MapC Map.Spec Map.Model Map.Proofs Map.Cases.
+From Coq Require Import ZArith List Arith Bool Permutation Lia Sorted.
+From SV Require Import Extracted.MapC Map.Spec Map.Model Map.Proofs Map.Cases Map.Wrappers Map.WrapperProofs.
 Import ListNotations.
 Open Scope nat_scope.
 
@@ -117,3 +117,359 @@ Example C11_example_index_kept_when_shrinking :
   index (ex_run (ops ++ [OMaybeDropIndex])) = None /\
   to_list (ex_run (ops ++ [OMaybeDropIndex; OSortKeys])) = [(0, 1); (1, 11); (2, 21); (4, 41)].
 Proof. vm_compute. repeat split; reflexivity. Qed.
+
+(* ====================================================================================================
+   The wrappers (Map/Wrappers.v mirrors small_set.rs, ordered_map.rs, ordered_set.rs, sorted_map.rs, sorted_set.rs,
+   unordered_map.rs, unordered_set.rs, vec2.rs, sorting/insertion.rs; proofs in Map/WrapperProofs.v).
+   ==================================================================================================== *)
+Section SetStatements.
+  Context {K H : Type}.
+  Variable keq : K -> K -> bool.
+  Variable heq : H -> H -> bool.
+  Variable klt : K -> K -> bool.
+  Variable hash : K -> H.
+  Variable thr : nat.
+  Variable max_ins : nat.
+  Hypothesis keq_spec : forall a b, keq a b = true <-> a = b.
+  Hypothesis heq_spec : forall a b, heq a b = true <-> a = b.
+  Notation setrun := (@set_run K H keq heq klt hash thr max_ins).
+  Notation osetrun := (@oset_run K H keq heq klt hash thr max_ins).
+
+  (* SmallSet: after ANY history of its methods the elements, in order, are those of the list-of-keys specification *)
+  Theorem C11_small_set_refines : forall ops : list (set_op K), set_to_list (setrun ops) = s_run keq klt ops.
+  Proof. exact (set_refines keq heq klt hash thr max_ins keq_spec heq_spec). Qed.
+
+  (* ... and the underlying SmallMap<T, ()> satisfies the SmallMap invariant *)
+  Theorem C11_small_set_inv_reachable : forall ops : list (set_op K), Inv hash thr (setrun ops).
+  Proof. exact (set_inv_reachable keq heq klt hash thr max_ins keq_spec heq_spec). Qed.
+
+  (* every method returns what the specification returns (insert: was it new; take/pop/shift_remove_index: the element;
+     get_or_insert: the stored element; try_insert: the occupying element) *)
+  Theorem C11_small_set_ret_refines : forall (ops : list (set_op K)) (o : set_op K),
+    snd (set_step keq heq klt hash thr max_ins (setrun ops) o) = snd (s_step keq klt (s_run keq klt ops) o).
+  Proof. exact (set_ret_refines keq heq klt hash thr max_ins keq_spec heq_spec). Qed.
+
+  (* the layer lemma: a history of SmallSet methods IS the history of the SmallMap methods they delegate to *)
+  Theorem C11_small_set_is_map_layer : forall ops : list (set_op K),
+    setrun ops = Model.run keq heq klt hash thr max_ins (map (@set_op_to_map K) ops).
+  Proof. exact (set_run_is_map_run keq heq klt hash thr max_ins keq_spec heq_spec). Qed.
+
+  Theorem C11_small_set_lookups_refine : forall (ops : list (set_op K)) k i,
+    let s := setrun ops in let l := s_run keq klt ops in
+    set_contains keq heq hash s k = s_mem keq l k /\
+    set_get keq heq hash s k = s_find keq l k /\
+    set_get_index_of keq heq hash s k = s_index_of keq l k /\
+    set_get_index s i = nth_error l i /\
+    set_first s = hd_error l /\ set_last s = list_last l /\ set_len s = length l.
+  Proof. exact (set_lookups_refine keq heq klt hash thr max_ins keq_spec heq_spec). Qed.
+
+  (* union: the elements of the first set followed by those of the second not in the first *)
+  Theorem C11_small_set_union_refines : forall ops1 ops2 : list (set_op K),
+    set_union keq heq hash (setrun ops1) (setrun ops2) = s_union keq (s_run keq klt ops1) (s_run keq klt ops2).
+  Proof. exact (set_union_refines keq heq klt hash thr max_ins keq_spec heq_spec). Qed.
+
+  (* OrderedSet forwards every method to SmallSet *)
+  Theorem C11_ordered_set_refines : forall ops : list (set_op K), set_to_list (osetrun ops) = s_run keq klt ops.
+  Proof. exact (set_refines keq heq klt hash thr max_ins keq_spec heq_spec). Qed.
+
+  (* SortedSet::from_iter: invariant, the sorted de-duplicated input, keys strictly increasing *)
+  Theorem C11_sorted_set_from_iter :
+    (forall a b, klt a b = true -> klt b a = false) -> (forall a b, klt a b = false -> klt b a = false -> a = b) ->
+    forall hint (ks : list K),
+    let s := sorted_set_from_iter keq heq klt hash thr max_ins hint ks in
+    Inv hash thr s /\ set_to_list s = s_sort klt (s_extend keq [] ks) /\ strictly_sorted klt (set_to_list s).
+  Proof. exact (sorted_set_from_iter_ok keq heq klt hash thr max_ins keq_spec heq_spec). Qed.
+
+  Theorem C11_sorted_set_lookups :
+    (forall a b, klt a b = true -> klt b a = false) -> (forall a b, klt a b = false -> klt b a = false -> a = b) ->
+    forall hint (ks : list K) k i,
+    let s := sorted_set_from_iter keq heq klt hash thr max_ins hint ks in let l := s_sort klt (s_extend keq [] ks) in
+    set_contains keq heq hash s k = s_mem keq l k /\ set_get keq heq hash s k = s_find keq l k /\
+    set_get_index s i = nth_error l i.
+  Proof. exact (sorted_set_lookups keq heq klt hash thr max_ins keq_spec heq_spec). Qed.
+End SetStatements.
+
+Section MapWrapperStatements.
+  Context {K V H : Type}.
+  Variable keq : K -> K -> bool.
+  Variable veq : V -> V -> bool.
+  Variable heq : H -> H -> bool.
+  Variable klt : K -> K -> bool.
+  Variable kcmp : K -> K -> comparison.
+  Variable vcmp : V -> V -> comparison.
+  Variable hash : K -> H.
+  Variable thr : nat.
+  Variable max_ins : nat.
+  Hypothesis keq_spec : forall a b, keq a b = true <-> a = b.
+  Hypothesis veq_spec : forall a b, veq a b = true <-> a = b.
+  Hypothesis heq_spec : forall a b, heq a b = true <-> a = b.
+  Notation omrun := (@omap_run K V H keq heq klt hash thr max_ins).
+  Notation omspec := (@om_run K V keq klt).
+  Notation smrun := (@sorted_run K V H keq heq klt hash thr max_ins).
+
+  (* OrderedMap: entries in order = the association-list specification, for every history of its methods
+     (insert, remove, clear, entry or_insert / and_modify, sort_keys, extend, get_mut, iter_mut/values_mut, ...) *)
+  Theorem C11_ordered_map_refines : forall ops : list (omap_op K V), to_list (omrun ops) = omspec ops.
+  Proof. exact (omap_refines keq heq klt hash thr max_ins keq_spec heq_spec). Qed.
+
+  Theorem C11_ordered_map_inv_reachable : forall ops : list (omap_op K V), Inv hash thr (omrun ops).
+  Proof. exact (omap_inv_reachable keq heq klt hash thr max_ins keq_spec heq_spec). Qed.
+
+  Theorem C11_ordered_map_ret_refines : forall (ops : list (omap_op K V)) o,
+    snd (omap_step keq heq klt hash thr max_ins (omrun ops) o) = snd (om_step keq klt (omspec ops) o).
+  Proof. exact (omap_ret_refines keq heq klt hash thr max_ins keq_spec heq_spec). Qed.
+
+  Theorem C11_ordered_map_get_refines : forall (ops : list (omap_op K V)) k,
+    Model.get keq heq hash (omrun ops) k = Spec.get keq (omspec ops) k.
+  Proof. exact (omap_get_refines keq heq klt hash thr max_ins keq_spec heq_spec). Qed.
+
+  Theorem C11_ordered_map_index_of_refines : forall (ops : list (omap_op K V)) k,
+    Model.get_index_of keq heq hash (omrun ops) k = Spec.index_of keq (omspec ops) k.
+  Proof. exact (omap_index_of_refines keq heq klt hash thr max_ins keq_spec heq_spec). Qed.
+
+  Theorem C11_ordered_map_get_index_refines : forall (ops : list (omap_op K V)) i,
+    Model.get_index (omrun ops) i = nth_error (omspec ops) i.
+  Proof. exact (omap_get_index_refines keq heq klt hash thr max_ins keq_spec heq_spec). Qed.
+
+  (* Eq of OrderedMap / OrderedSet / SortedMap / SortedSet (eq_ordered: hashes then entries) is equality of the entry
+     SEQUENCES, for any two maps satisfying the invariant *)
+  Theorem C11_ordered_eq_is_list_eq : forall m1 m2 : @smap K V H, Inv hash thr m1 -> Inv hash thr m2 ->
+    (omap_eq keq veq heq m1 m2 = true <-> to_list m1 = to_list m2).
+  Proof. exact (eq_ordered_is_list_eq keq veq heq hash thr keq_spec veq_spec heq_spec). Qed.
+
+  Theorem C11_ordered_eq_is_list_eq_reachable : forall ops1 ops2 : list (omap_op K V),
+    omap_eq keq veq heq (omrun ops1) (omrun ops2) = true <-> omspec ops1 = omspec ops2.
+  Proof. exact (omap_eq_is_list_eq keq veq heq klt hash thr max_ins keq_spec veq_spec heq_spec). Qed.
+
+  (* Ord (lexicographic over the entry sequence): Equal exactly on equal sequences *)
+  Theorem C11_ordered_cmp_eq_is_list_eq :
+    (forall a b, kcmp a b = Eq <-> a = b) -> (forall a b, vcmp a b = Eq <-> a = b) ->
+    forall m1 m2 : @smap K V H, omap_cmp kcmp vcmp m1 m2 = Eq <-> to_list m1 = to_list m2.
+  Proof. exact (@omap_cmp_eq K V H kcmp vcmp). Qed.
+
+  (* Hash (hash_ordered feeds the stored hashes and the values in order): equal sequences hash equally *)
+  Theorem C11_ordered_hash_congr : forall (S : Type) (mix_h : S -> H -> S) (mix_v : S -> V -> S) (m1 m2 : @smap K V H) st,
+    Inv hash thr m1 -> Inv hash thr m2 -> to_list m1 = to_list m2 ->
+    hash_ordered mix_h mix_v m1 st = hash_ordered mix_h mix_v m2 st.
+  Proof. exact (@hash_ordered_congr K V H hash thr). Qed.
+
+  (* Eq of SmallMap / SmallSet is order-INsensitive: same entries as a bag *)
+  Theorem C11_small_map_eq_is_perm : forall m1 m2 : @smap K V H, Inv hash thr m1 -> Inv hash thr m2 ->
+    (smap_eq keq veq heq m1 m2 = true <-> Permutation (to_list m1) (to_list m2)).
+  Proof. exact (smap_eq_is_perm keq veq heq hash thr keq_spec veq_spec heq_spec). Qed.
+
+  Section Sorted.
+    Hypothesis klt_asym : forall a b, klt a b = true -> klt b a = false.
+    Hypothesis klt_total : forall a b, klt a b = false -> klt b a = false -> a = b.
+
+    (* SortedMap: built by FromIterator (insert all, sort_keys), then any sequence of value writes (get_mut, iter_mut,
+       values_mut): the SmallMap invariant holds and the keys are strictly increasing *)
+    Theorem C11_sorted_map_inv_reachable : forall hint (kvs : list (K * V)) (ops : list (sorted_op K V)),
+      Inv hash thr (smrun hint kvs ops) /\ strictly_sorted klt (map fst (to_list (smrun hint kvs ops))).
+    Proof. exact (sorted_map_inv_reachable keq heq klt hash thr max_ins keq_spec heq_spec klt_asym klt_total). Qed.
+
+    Theorem C11_sorted_map_refines : forall hint (kvs : list (K * V)) (ops : list (sorted_op K V)),
+      to_list (smrun hint kvs ops) = sorted_spec_run keq klt kvs ops.
+    Proof. exact (sorted_map_refines keq heq klt hash thr max_ins keq_spec heq_spec klt_asym klt_total). Qed.
+
+    Theorem C11_sorted_map_get_refines : forall hint (kvs : list (K * V)) (ops : list (sorted_op K V)) k,
+      Model.get keq heq hash (smrun hint kvs ops) k = Spec.get keq (sorted_spec_run keq klt kvs ops) k.
+    Proof. exact (sorted_map_get_refines keq heq klt hash thr max_ins keq_spec heq_spec klt_asym klt_total). Qed.
+
+    (* the constructor yields a permutation of the de-duplicated input *)
+    Theorem C11_sorted_map_from_iter_perm : forall hint (kvs : list (K * V)),
+      Permutation (to_list (sorted_from_iter keq heq klt hash thr max_ins hint kvs)) (Spec.extend keq [] kvs).
+    Proof. exact (sorted_map_from_iter_perm keq heq klt hash thr max_ins keq_spec heq_spec klt_asym klt_total). Qed.
+  End Sorted.
+
+  (* ---- UnorderedMap: hashbrown::HashTable<(K, V)> as a bag of slots *)
+  Notation umrun := (@u_run K V H keq heq hash).
+  Notation umspec := (@us_run K V keq).
+
+  (* after ANY history: every slot sits under its key's hash, keys are distinct, and the content is, as a bag, that of
+     the association-list specification *)
+  Theorem C11_unordered_map_refines : forall ops : list (umap_op K V),
+    UInv hash (umrun ops) /\ Permutation (u_to_list (umrun ops)) (umspec ops).
+  Proof. exact (u_refines keq heq hash keq_spec heq_spec). Qed.
+
+  Theorem C11_unordered_map_ret_refines : forall (ops : list (umap_op K V)) o,
+    snd (u_step keq heq hash (umrun ops) o) = snd (us_step keq (umspec ops) o).
+  Proof. exact (u_ret_refines keq heq hash keq_spec heq_spec). Qed.
+
+  Theorem C11_unordered_map_get_refines : forall (ops : list (umap_op K V)) k,
+    u_get keq heq hash (umrun ops) k = Spec.get keq (umspec ops) k /\
+    u_contains_key keq heq hash (umrun ops) k = Spec.contains keq (umspec ops) k /\
+    u_len (umrun ops) = length (umspec ops).
+  Proof. exact (u_get_refines keq heq hash keq_spec heq_spec). Qed.
+
+  (* lookups do not depend on the bucket order: two tables with the same bag of entries answer alike *)
+  Theorem C11_unordered_get_order_independent : forall (t1 t2 : @utable K V H) k, UInv hash t1 -> UInv hash t2 ->
+    Permutation (u_to_list t1) (u_to_list t2) -> u_get keq heq hash t1 k = u_get keq heq hash t2 k.
+  Proof. exact (u_get_perm keq heq hash keq_spec heq_spec). Qed.
+
+  (* Eq of UnorderedMap is equality of the bags of entries *)
+  Theorem C11_unordered_eq_is_perm : forall t1 t2 : @utable K V H, UInv hash t1 -> UInv hash t2 ->
+    (u_eq keq veq heq hash t1 t2 = true <-> Permutation (u_to_list t1) (u_to_list t2)).
+  Proof. exact (u_eq_is_perm keq veq heq hash keq_spec veq_spec heq_spec). Qed.
+
+  (* Hash of UnorderedMap (length and a commutative sum of entry hashes) does not depend on the bucket order *)
+  Theorem C11_unordered_hash_order_independent :
+    forall (S : Type) (eh : K -> V -> S) (add : S -> S -> S) (zero : S) (t1 t2 : @utable K V H),
+    (forall s a b, add (add s a) b = add (add s b) a) ->
+    Permutation (u_to_list t1) (u_to_list t2) -> u_hash eh add zero t1 = u_hash eh add zero t2.
+  Proof. exact (@u_hash_perm K V H). Qed.
+
+  (* entries_sorted: a permutation of the entries with strictly increasing keys, the same whatever the bucket order *)
+  Theorem C11_unordered_entries_sorted :
+    (forall a b, klt a b = true -> klt b a = false) -> (forall a b, klt a b = false -> klt b a = false -> a = b) ->
+    (forall a b c, klt a b = true -> klt b c = true -> klt a c = true) ->
+    (forall t : @utable K V H, UInv hash t ->
+       Permutation (u_entries_sorted klt t) (u_to_list t) /\ strictly_sorted klt (map fst (u_entries_sorted klt t))) /\
+    (forall t1 t2 : @utable K V H, UInv hash t1 -> UInv hash t2 -> Permutation (u_to_list t1) (u_to_list t2) ->
+       u_entries_sorted klt t1 = u_entries_sorted klt t2).
+  Proof.
+    exact (fun Ha Ht Hr => conj (fun t => u_entries_sorted_ok klt hash Ha Ht t)
+                                (u_entries_sorted_canonical klt hash Ha Ht Hr)).
+  Qed.
+End MapWrapperStatements.
+
+Section UnorderedSetStatements.
+  Context {K H : Type}.
+  Variable keq : K -> K -> bool.
+  Variable heq : H -> H -> bool.
+  Variable klt : K -> K -> bool.
+  Variable hash : K -> H.
+  Hypothesis keq_spec : forall a b, keq a b = true <-> a = b.
+  Hypothesis heq_spec : forall a b, heq a b = true <-> a = b.
+
+  (* UnorderedSet: insert / raw-entry remove / contains / clear keep the invariant and act as the set specification *)
+  Theorem C11_unordered_set_ops : forall (t : @uset K H) k, @UInv K unit H hash t ->
+    (@UInv K unit H hash (fst (uset_insert keq heq hash t k)) /\
+     uset_to_list (fst (uset_insert keq heq hash t k)) = s_insert keq (uset_to_list t) k /\
+     snd (uset_insert keq heq hash t k) = negb (s_mem keq (uset_to_list t) k)) /\
+    (@UInv K unit H hash (fst (uset_remove keq heq hash t k)) /\
+     uset_to_list (fst (uset_remove keq heq hash t k)) = s_remove keq (uset_to_list t) k /\
+     snd (uset_remove keq heq hash t k) = s_mem keq (uset_to_list t) k) /\
+    uset_contains keq heq hash t k = s_mem keq (uset_to_list t) k /\
+    @UInv K unit H hash (uset_clear t).
+  Proof. exact (uset_ops_ok keq heq hash keq_spec heq_spec). Qed.
+
+  Theorem C11_unordered_set_from_iter : forall ks : list K,
+    @UInv K unit H hash (uset_from_iter keq heq hash ks) /\
+    uset_to_list (uset_from_iter keq heq hash ks) = s_extend keq [] ks.
+  Proof. exact (uset_from_iter_ok keq heq hash keq_spec heq_spec). Qed.
+
+  Theorem C11_unordered_set_eq_is_perm : forall t1 t2 : @uset K H, @UInv K unit H hash t1 -> @UInv K unit H hash t2 ->
+    (uset_eq keq heq hash t1 t2 = true <-> Permutation (uset_to_list t1) (uset_to_list t2)).
+  Proof. exact (uset_eq_is_perm keq heq hash keq_spec heq_spec). Qed.
+
+  Theorem C11_unordered_set_entries_sorted :
+    (forall a b, klt a b = true -> klt b a = false) -> (forall a b, klt a b = false -> klt b a = false -> a = b) ->
+    forall t : @uset K H, @UInv K unit H hash t ->
+    Permutation (uset_entries_sorted klt t) (uset_to_list t) /\ strictly_sorted klt (uset_entries_sorted klt t).
+  Proof. exact (uset_entries_sorted_ok klt hash). Qed.
+End UnorderedSetStatements.
+
+Section Vec2Statements.
+  Context {A B : Type}.
+  Variable min_cap : nat.       (* MIN_NON_ZERO_CAP *)
+  Variable max_ins : nat.       (* MAX_INSERTION *)
+  Variable less : A * B -> A * B -> bool.
+  Notation vrun := (@v2_run A B min_cap max_ins less).
+  Notation vspec := (@vs_run A B less).
+
+  (* Vec2: after ANY history (push, pop, remove, clear, truncate, retain, sort_by, sort_insertion_by, reserve,
+     shrink_to_fit, extend, with_capacity, clone) the two halves have the same length, fit the capacity, and zipped
+     they are the list of the specification *)
+  Theorem C11_vec2_refines : forall ops : list (vec2_op A B), v2_to_list (vrun ops) = vspec ops.
+  Proof. exact (v2_refines min_cap max_ins less). Qed.
+
+  Theorem C11_vec2_inv_reachable : forall ops : list (vec2_op A B),
+    length (aaa (vrun ops)) = length (bbb (vrun ops)) /\ length (aaa (vrun ops)) <= cap (vrun ops).
+  Proof. exact (v2_inv_reachable min_cap max_ins less). Qed.
+
+  Theorem C11_vec2_ret_refines : forall (ops : list (vec2_op A B)) o,
+    snd (v2_step min_cap max_ins less (vrun ops) o) = snd (vs_step less (vspec ops) o).
+  Proof. exact (v2_ret_refines min_cap max_ins less). Qed.
+
+  Theorem C11_vec2_get_refines : forall (ops : list (vec2_op A B)) i,
+    v2_get (vrun ops) i = nth_error (vspec ops) i /\ v2_first (vrun ops) = hd_error (vspec ops) /\
+    v2_last (vrun ops) = list_last (vspec ops) /\ v2_len (vrun ops) = length (vspec ops).
+  Proof. exact (v2_get_refines min_cap max_ins less). Qed.
+
+  (* sorting/insertion.rs: the index-based insertion sort (find_insertion_point + swap_shift) is the stable insertion
+     sort of the specification *)
+  Theorem C11_insertion_sort_is_isort : forall l : list (A * B),
+    insertion_sort (lless less) (@slice_swap_shift (A * B)) l (length l) = isort less l.
+  Proof. exact (insertion_sort_spec less). Qed.
+
+  (* the hybrid sort_by (insertion sort up to MAX_INSERTION entries, else collect + stable std sort + push back):
+     a permutation, sorted, and stable -- whatever the cut-off *)
+  Theorem C11_vec2_sort_stable_perm : forall v : vec2 A B,
+    length (aaa v) = length (bbb v) /\ length (aaa v) <= cap v ->
+    (forall a b, less a b = true -> less b a = false) ->
+    (forall x y z, less x y = true -> eqv less z x = true -> eqv less z y = true -> False) ->
+    let r := v2_to_list (v2_sort_by min_cap max_ins less v) in
+    Permutation r (v2_to_list v) /\
+    (forall i a b, nth_error r i = Some a -> nth_error r (S i) = Some b -> less b a = false) /\
+    (forall z, filter (eqv less z) r = filter (eqv less z) (v2_to_list v)).
+  Proof. exact (v2_sort_stable_perm min_cap max_ins less). Qed.
+End Vec2Statements.
+
+(* ---- the wrapper hypotheses are satisfiable, the statements speak about non-trivial states ---- *)
+Example C11_example_wrapper_hypotheses :
+  (forall a b, Nat.ltb a b = false -> Nat.ltb b a = false -> a = b) /\
+  (forall a b c, Nat.ltb a b = true -> Nat.ltb b c = true -> Nat.ltb a c = true) /\
+  (forall a b, Nat.compare a b = Eq <-> a = b) /\
+  (let less := fun x y : nat * nat => Nat.ltb (fst x) (fst y) in
+   forall x y z, less x y = true -> eqv less z x = true -> eqv less z y = true -> False).
+Proof.
+  split; [|split; [|split]].
+  - intros a b H1 H2. apply Nat.ltb_ge in H1, H2. lia.
+  - intros a b c H1 H2. apply Nat.ltb_lt in H1, H2. apply Nat.ltb_lt. lia.
+  - intros a b. apply Nat.compare_eq_iff.
+  - intros less x y z Hxy Hzx Hzy. unfold eqv, less in *. apply Nat.ltb_lt in Hxy.
+    apply andb_prop in Hzx as [H1 H2]. apply andb_prop in Hzy as [H3 H4].
+    apply negb_true_iff in H1, H2, H3, H4. apply Nat.ltb_ge in H1, H2, H3, H4. lia.
+Qed.
+
+(* a SmallSet history crossing the extracted threshold, then OrderedSet::try_insert, sort, take *)
+Example C11_example_small_set :
+  let run := @set_run nat nat Nat.eqb Nat.eqb Nat.ltb (fun k => k mod 2) Cases.thr Cases.max_ins in
+  let ops := map SInsert (rev (seq 0 18)) ++ [SRemove 3; STryInsert 5; STryInsert 40; SSort; STake 0] in
+  set_to_list (run ops) = [1; 2; 4; 5; 6; 7; 8; 9; 10; 11; 12; 13; 14; 15; 16; 17; 40] /\
+  index (run ops) <> None /\
+  snd (set_step Nat.eqb Nat.eqb Nat.ltb (fun k => k mod 2) Cases.thr Cases.max_ins (run ops) (STryInsert 7)) = SROptK (Some 7).
+Proof. vm_compute. repeat split; discriminate. Qed.
+
+(* OrderedMap equality is order-sensitive, SmallMap equality is not; SortedMap::from_iter sorts and de-duplicates *)
+Example C11_example_ordered_vs_unordered_eq :
+  let run := @omap_run nat nat nat Nat.eqb Nat.eqb Nat.ltb (fun k => k mod 3) Cases.thr Cases.max_ins in
+  let m1 := run [MInsert 1 10; MInsert 2 20; MInsert 3 30] in
+  let m2 := run [MInsert 3 30; MInsert 1 10; MInsert 2 20] in
+  omap_eq Nat.eqb Nat.eqb Nat.eqb m1 m2 = false /\ smap_eq Nat.eqb Nat.eqb Nat.eqb m1 m2 = true /\
+  omap_cmp Nat.compare Nat.compare m1 m2 = Lt /\
+  omap_eq Nat.eqb Nat.eqb Nat.eqb (run [MInsert 1 10; MInsert 2 20; MInsert 3 30; MSortKeys]) (run [MInsert 3 30; MInsert 1 10; MInsert 2 20; MSortKeys]) = true /\
+  to_list (@sorted_run nat nat nat Nat.eqb Nat.eqb Nat.ltb (fun k => k mod 3) Cases.thr Cases.max_ins 0
+             [(5, 1); (2, 2); (9, 3); (2, 4)] [TGetMut 9 S; TValuesMut (fun k v => k + v)]) = [(2, 6); (5, 6); (9, 13)].
+Proof. vm_compute. repeat split. Qed.
+
+(* UnorderedMap: two insertion orders give different slot orders, equal maps, equal sorted entries *)
+Example C11_example_unordered :
+  let run := @u_run nat nat nat Nat.eqb Nat.eqb (fun k => k mod 2) in
+  let t1 := run [UInsert 4 1; UInsert 2 2; UInsert 7 3; URemove 2; UInsert 2 5; UEntryModify 7 S 0] in
+  let t2 := run [UInsert 2 5; UInsert 7 4; UInsert 4 1] in
+  u_to_list t1 <> u_to_list t2 /\ u_eq Nat.eqb Nat.eqb Nat.eqb (fun k => k mod 2) t1 t2 = true /\
+  u_entries_sorted Nat.ltb t1 = [(2, 5); (4, 1); (7, 4)] /\ u_entries_sorted Nat.ltb t2 = [(2, 5); (4, 1); (7, 4)].
+Proof. vm_compute. repeat split. discriminate. Qed.
+
+(* Vec2::sort_by on both sides of the extracted MAX_INSERTION cut-off: stable (second components keep their order) *)
+Example C11_example_vec2_sort :
+  let less := fun x y : nat * nat => Nat.ltb (fst x) (fst y) in
+  let push_all n := map (fun i => VPush ((7 * i) mod 5) i) (seq 0 n) in
+  let run := @v2_run nat nat 4 Cases.max_ins less in
+  Cases.max_ins = 20 /\
+  v2_to_list (run (push_all 8 ++ [VSortBy])) = [(0, 0); (0, 5); (1, 3); (2, 1); (2, 6); (3, 4); (4, 2); (4, 7)] /\
+  v2_to_list (run (push_all 23 ++ [VSortBy; VTruncate 6; VPop])) = [(0, 0); (0, 5); (0, 10); (0, 15); (0, 20)] /\
+  cap (run (push_all 23)) = 32 /\ cap (run (push_all 23 ++ [VSortBy])) = 32 /\ cap (run (push_all 23 ++ [VShrinkToFit])) = 23.
+Proof. vm_compute. repeat split. Qed.
